@@ -168,6 +168,7 @@ theorem parseLoop_doc_tr (nS : String) (labels : List String) (m : List (String 
   rw [parseTrees_block_tr m labels hl cs hc _ (by omega)]
   simp only [List.nil_append]
   rw [parseLoop, parseLoop]
+  simp
 
 theorem buildTrees_tr (C : NewickCodec) (L : NewickLaws C) (table : List (String × String)) (labs : List String)
     (W : List (Nat × T)) (ts : List T) (i : Nat)
